@@ -32,13 +32,14 @@ func (o WriteOptions) withQuoted(quoted bool) *WriteOptions {
 	return &o
 }
 
+// withVisited adds t to the terms that are being written right now, one inside the other. Whoever adds t takes it out
+// again when t is written (see WriteCompound). They used to get a copy of the set each, with t added, which made
+// writing a term nested n deep take n*n/2 entries: gigabytes for write_canonical/1 of a list of 30000 elements.
 func (o WriteOptions) withVisited(t Term) *WriteOptions {
-	visited := make(map[termID]struct{}, len(o.visited))
-	for k, v := range o.visited {
-		visited[k] = v
+	if o.visited == nil {
+		o.visited = map[termID]struct{}{}
 	}
-	visited[id(t)] = struct{}{}
-	o.visited = visited
+	o.visited[id(t)] = struct{}{}
 	return &o
 }
 
